@@ -22,7 +22,9 @@ def _create_merge_candidates(merge_expr: exp.Merge) -> exp.Expression:
 
     source = merge_expr.args.get("using")
     assert isinstance(source, exp.Expression)
-    source_id = (alias := source.args.get("alias")) and alias.this if isinstance(source, exp.Subquery) else source.this
+    # a subquery or an aliased table is referred to by its alias
+    has_alias = isinstance(source, exp.Subquery) or source.args.get("alias")
+    source_id = (alias := source.args.get("alias")) and alias.this if has_alias else source.this
     assert isinstance(source_id, exp.Identifier)
 
     join_expr = merge_expr.args.get("on")
@@ -103,7 +105,8 @@ def _mutations(merge_expr: exp.Merge) -> list[exp.Expression]:
     """
     target_tbl = merge_expr.this
     source = merge_expr.args.get("using")
-    source_tbl = source.alias if isinstance(source, exp.Subquery) else source
+    # a subquery or an aliased table is referred to by its alias
+    source_tbl = source.alias if isinstance(source, exp.Subquery) or source.alias else source
     join_expr = merge_expr.args.get("on")
 
     statements: list[exp.Expression] = []
